@@ -5,7 +5,7 @@ from pv import common, gen, detsched
 
 RULE = ("(a) harness-defined probe algorithm on the real SynchronousComputationMixin+DcopComputation over random "
         "graphs (1-7 nodes, any degree incl. 0): each round every node sends a uniquely numbered message to a "
-        "random subset of neighbours, through the returned list or post_msg; (b) the real maxsum and dsatuto "
+        "random subset of neighbours, through the returned list or post_msg; (b) the real maxsum (start_messages leafs / leafs_vars / all) and dsatuto "
         "computations on generated DCOPs; random FIFO schedules with biases; oracle over the send log: round ids "
         "0,1,2.. without gap, on_new_cycle(messages, i) gets exactly the algorithm messages tagged i (same objects), "
         "every other neighbour sent exactly one sync tagged i; no ComputationException; non-trivial = >= 3 "
@@ -162,6 +162,8 @@ def run_one(spec, sched_seed, bias=None, choices=None, rounds=8):
     else:
         dcop = gen.build_dcop(spec["case"])
         params = {"damping": 0.0, "noise": 0.0} if spec["kind"] == "maxsum" and rng.random() < 0.5 else {}
+        if spec["kind"] == "maxsum":
+            params["start_messages"] = rng.choice(["leafs", "leafs_vars", "all"])
         comps, _, _ = detsched.build_computations(spec["kind"], dcop, params=params,
                                                   mode="min" if spec["kind"] == "dsatuto" else None)
     pool = detsched.Pool(sched_seed, choices=choices)
